@@ -1,11 +1,17 @@
 package checks
 
 import (
+	"context"
+	"encoding/json"
 	"fmt"
 
 	"github.com/indexsupply/shovel/dig"
 	"github.com/indexsupply/shovel/eth"
+	"github.com/indexsupply/shovel/shovel"
+	"github.com/indexsupply/shovel/shovel/config"
+	"github.com/indexsupply/shovel/wpg"
 
+	"verif/harness/fakepg"
 	"verif/harness/gen"
 	"verif/harness/refmodel"
 	"verif/harness/vk"
@@ -37,7 +43,18 @@ func c13Multi(c *vk.Case) {
 		decls = append(decls, newABIDecl(name, fs))
 		vals = append(vals, gen.Values(r, fs, opts))
 	}
-	for _, d := range decls {
+	if c.Index%2 == 1 {
+		// the integrations come from the database, the way loadTasks gets the ones submitted through the dashboard:
+		// stored as the handler stores them, loaded together with config.Root.AllIntegrations, then built
+		var err error
+		if igs, err = c13StoredIntegrations(decls); err != nil {
+			c.Inconclusive("integrations stored in the database: %v", err)
+			return
+		}
+		c.Obs("multi_scenarios_loaded_from_database", 1)
+		decls = decls[:len(igs)]
+	}
+	for _, d := range decls[len(igs):] {
 		ig, err, p := newIntegration(d, nil)
 		if p != nil {
 			c.Violate("multi:panic:"+p.key(), map[string]any{"decl": d.describe()}, "building the integration panicked: %s", p.Val)
@@ -94,4 +111,81 @@ func c13Multi(c *vk.Case) {
 		}
 		c.Sample(map[string]any{"family": "several integrations built before use", "events": s})
 	}
+}
+
+// c13StoredIntegrations stores one integration per declaration in shovel.integrations of a fresh database (decoded,
+// checked and re-encoded as web.Handler.SaveIntegration does), loads them all with config.Root.AllIntegrations and
+// builds their destinations; the result is in the order of decls.
+func c13StoredIntegrations(decls []*abiDecl) (res []dig.Integration, err error) {
+	defer func() {
+		if r := recover(); r != nil {
+			err = fmt.Errorf("panic: %v", r)
+		}
+	}()
+	pg, err := fakepg.New()
+	if err != nil {
+		return nil, err
+	}
+	defer pg.Close()
+	pg.SetSchemaScript(shovel.Schema)
+	ctx := context.Background()
+	pool, err := wpg.NewPool(ctx, pg.URL())
+	if err != nil {
+		return nil, err
+	}
+	defer pool.Close()
+	if _, err := pool.Exec(ctx, shovel.Schema); err != nil {
+		return nil, err
+	}
+	for i, d := range decls {
+		direct, err, p := newIntegration(d, nil)
+		if err != nil || p != nil {
+			return nil, fmt.Errorf("building %s directly: %v %v", d.describe(), err, p)
+		}
+		raw, err := json.Marshal(map[string]any{
+			"name": fmt.Sprintf("ig_%d", i), "enabled": true, "sources": []any{map[string]any{"name": "src"}},
+			"table": direct.Table, "event": d.ev,
+		})
+		if err != nil {
+			return nil, err
+		}
+		var ig config.Integration
+		if err := json.Unmarshal(raw, &ig); err != nil {
+			return nil, err
+		}
+		if err := config.CheckUserInput(config.Root{Integrations: []config.Integration{ig}}); err != nil {
+			return nil, err
+		}
+		cj, err := json.Marshal(ig)
+		if err != nil {
+			return nil, err
+		}
+		if _, err := pool.Exec(ctx, `insert into shovel.integrations(name, conf) values ($1, $2)`, ig.Name, cj); err != nil {
+			return nil, err
+		}
+	}
+	all, err := config.Root{}.AllIntegrations(ctx, pool)
+	if err != nil {
+		return nil, err
+	}
+	byName := map[string]config.Integration{}
+	for _, ig := range all {
+		byName[ig.Name] = ig
+	}
+	for i := range decls {
+		ig, ok := byName[fmt.Sprintf("ig_%d", i)]
+		if !ok {
+			return nil, fmt.Errorf("integration ig_%d was stored and is not among the %d loaded", i, len(all))
+		}
+		dest, err := shovel.NewDestination(ig)
+		if err != nil {
+			return nil, fmt.Errorf("destination of %s: %w", decls[i].describe(), err)
+		}
+		got, ok := dest.(dig.Integration)
+		if !ok {
+			return nil, fmt.Errorf("destination is %T", dest)
+		}
+		res = append(res, got)
+	}
+	return res, nil
 }
